@@ -55,6 +55,14 @@ def make_plan(seed: int, tier: str) -> dict:
     if call in ("fit", "mean_posterior", "mode_posterior") and st.bernoulli(0.35):
         plan["annealing"] = {"do_annealing": True, "initial_temperature": st.choice([2, 5, 10]), "n_plateau": st.randint(2, 3), "n_iter_frac": st.choice([0.5, 0.9])}
         plan["n_iter"] = max(plan["n_iter"], 6)
+    if call in ("fit", "mean_posterior", "mode_posterior") and st.bernoulli(0.25):
+        # the measured call is made with an AlgorithmSettings object that already served an earlier seeded call with another n_iter
+        # (part of "whatever was fitted earlier in the process"); kept apart from logging configurations
+        plan["reuse_settings"] = {"earlier_n_iter": st.choice([2, 3, 12, 20])}
+        if not plan.get("annealing") and st.bernoulli(0.6):
+            # (nested settings - annealing, sampler parameters - are what a reused object can carry from one call to the next)
+            plan["annealing"] = {"do_annealing": True, "initial_temperature": st.choice([2, 5, 10]), "n_plateau": st.randint(2, 3), "n_iter_frac": st.choice([0.5, 0.9])}
+            plan["n_iter"] = max(plan["n_iter"], 6)
     if call == "fit" and workload.kind_info(kind)["family"] != "linear" and st.bernoulli(0.25):
         plan["init_random"] = True   # documented model option: the initial parameters are drawn (logistic family)
     for _ in range(st.randint(0, 3)):
@@ -145,6 +153,8 @@ def run_plan(plan: dict) -> dict:
         C["probe.annealing_on"] += 1
     if plan.get("init_random"):
         C["probe.random_initialization"] += 1
+    if plan.get("reuse_settings") and not (plan["call"] == "fit" and plan["logs"]):
+        C["probe.settings_object_used_before"] += 1
     if ref["errors"]:
         # the measured call itself fails without any history or logging: not attributable to C11
         out["discarded"] = f"reference_raised:{ref['errors'][0][1]}"
@@ -173,6 +183,8 @@ def run_plan(plan: dict) -> dict:
                 cause.append("logging")
             if plan.get("init_random"):
                 cause.append("random_initialization")
+            if plan.get("reuse_settings"):
+                cause.append("settings_object_used_before")
             violation(out, "reproducible", f"result_differs_from_history_free_run:{call}:{label}:{'+'.join(cause) or 'nothing'}:{ns_kind}",
                       f"{where}: {label}: {d} vs reference {dref}")
     if len(set(digs.values())) > 1 and all(d == dref or True for d in digs.values()) and "with_history_and_logging" in digs and "again_without_logging" in digs \
